@@ -288,6 +288,24 @@ def _struct_job(_):
                 "quantifier_vars %s" % [sc.node_str(w, x) for x in qv])
     run1("ForAll(vars, body): quantifier_vars / arg(0)", quant)
 
+    # documented normal form of the n-ary bit-vector constructors: "a left-associative formula is generated" - the n-ary request
+    # and the nested binary requests are one object
+    for ctor in ("BVAnd", "BVOr", "BVAdd", "BVMul", "BVXor"):
+        for k in (3, 4, 5, 7):
+            def nary(w, it, ctor=ctor, k=k):
+                xs = [w.symbol("x%d" % i, ("BV", 4)) for i in range(k)]
+                try:
+                    n = w.app(ctor, *xs)
+                except AbsRaise as ex_:
+                    return (True, "n-ary form not offered (%s)" % ex_.cls_name)
+                left = xs[0]
+                for x_ in xs[1:]:
+                    left = w.app(ctor, left, x_)
+                n2 = w.app(ctor, list(xs))
+                return (n is left and n2 is left, "%s of %d operands is %s, the left-associative nesting is %s"
+                        % (ctor, k, sc.node_str(w, n), sc.node_str(w, left)))
+            run1("%s/%d: the n-ary form is the left-associative nesting" % (ctor, k), nary)
+
     def fun(w, it):
         f = w.symbol("f", ("FUN", INT, (INT, INT)))
         x, y = w.symbol("x", INT), w.symbol("y", INT)
